@@ -3,7 +3,7 @@
    model acts on the view in a simple way: a message appends its record to the sinks whose filters it
    passes; a flush changes nothing.  A good configuration empties, after the fatal record was
    processed, the buffer of every healthy sink reachable from the logger. *)
-From Coq Require Import List NArith Bool Lia.
+From Coq Require Import List NArith Bool Lia PeanoNat.
 Import ListNotations.
 Require Import QtlVerif.FatalDefs.
 Local Open Scope N_scope.
@@ -484,3 +484,159 @@ Theorem expected_ev_flush rej t evs1 evs2 r :
 Proof.
   unfold expected_ev, spec_run. rewrite <- !app_assoc, !fold_left_app. reflexivity.
 Qed.
+
+(* ================= several sinks on one file; destroyed sinks; a second Logger object =================
+   [wsettle] forgets where the records of every sink (of the configuration or destroyed) sit; every step
+   of the model, seen through it, is the step of the unbuffered specification [swstep]. *)
+Definition wsettle (st : wstate) : wstate := (tmap settle (fst st), map settle (snd st)).
+Lemma tmap_step cfg pol rej t e : tmap settle (step cfg pol rej t e) = sstep rej (tmap settle t) e.
+Proof. destruct e as [m| |o]; cbn [step sstep]; [apply tmap_process_message|apply tmap_root_flush|apply tmap_apply_op]. Qed.
+Lemma sinks_of_tmap f t : sinks_of (tmap f t) = map f (sinks_of t).
+Proof. unfold sinks_of, gsinks. rewrite gs_tmap, !map_map. reflexivity. Qed.
+Lemma has_sid_settle l i : has_sid (map settle l) i = has_sid l i.
+Proof. unfold has_sid. induction l as [|s l IH]; [reflexivity|]. cbn [map existsb]. rewrite IH. reflexivity. Qed.
+Lemma dropped_settle t t' : dropped (tmap settle t) (tmap settle t') = map settle (dropped t t').
+Proof.
+  unfold dropped. rewrite !sinks_of_tmap. induction (sinks_of t) as [|s l IH]; [reflexivity|].
+  cbn [map filter]. rewrite has_sid_settle. cbn [settle sid].
+  destruct (negb (has_sid (sinks_of t') (sid s))); cbn [map]; rewrite IH; reflexivity.
+Qed.
+Lemma settle_qflush s : settle (qflush s) = settle s.
+Proof. rewrite !settle_fields, qflush_sid, qflush_presize, qflush_broken, qflush_content. reflexivity. Qed.
+Lemma settle_fold_write cfg pol rej msgs : forall s,
+  settle (fold_left (write cfg pol rej) msgs s) = fold_left (swrite rej) msgs (settle s).
+Proof. induction msgs as [|m rest IH]; intros s; [reflexivity|]. cbn [fold_left]. rewrite IH, settle_write. reflexivity. Qed.
+Lemma wsettle_wstep cfg pol rej st e : wsettle (wstep cfg pol rej st e) = swstep rej (wsettle st) e.
+Proof.
+  destruct st as [t g], e as [e|s msgs]; unfold wsettle, wstep, swstep; cbn [fst snd].
+  - rewrite <- (tmap_step cfg pol), dropped_settle, map_app, map_map. f_equal. f_equal. apply map_ext. intros x. apply settle_qflush.
+  - rewrite map_app. cbn [map]. rewrite settle_qflush, settle_fold_write. reflexivity.
+Qed.
+Lemma wsettle_fold cfg pol rej evs : forall st,
+  wsettle (fold_left (wstep cfg pol rej) evs st) = fold_left (swstep rej) evs (wsettle st).
+Proof. induction evs as [|e evs IH]; intros st; [reflexivity|]. cbn [fold_left]. rewrite IH, wsettle_wstep. reflexivity. Qed.
+Lemma wsettle_wrun cfg pol rej t evs : wsettle (wrun cfg pol rej t evs) = wspec rej t evs.
+Proof. unfold wrun, wspec. rewrite wsettle_fold. reflexivity. Qed.
+
+(* a destroyed sink has nothing buffered: its QFile was closed *)
+Definition sfl (s : sink) : Prop := broken s = false -> buf s = [].
+Lemma sfl_qflush s : sfl (qflush s).
+Proof. unfold sfl. rewrite qflush_broken. apply qflush_buf. Qed.
+Lemma closed_wstep cfg pol rej st e : Forall sfl (snd st) -> Forall sfl (snd (wstep cfg pol rej st e)).
+Proof.
+  intros H. destruct e as [e|s msgs]; cbn [wstep snd]; apply Forall_app; (split; [exact H|]).
+  - apply Forall_forall. intros x Hx. apply in_map_iff in Hx. destruct Hx as (y & <- & _). apply sfl_qflush.
+  - constructor; [apply sfl_qflush|constructor].
+Qed.
+Lemma closed_fold cfg pol rej evs : forall st, Forall sfl (snd st) -> Forall sfl (snd (fold_left (wstep cfg pol rej) evs st)).
+Proof. induction evs as [|e evs IH]; intros st H; [exact H|]. cbn [fold_left]. apply IH, closed_wstep, H. Qed.
+Lemma sfl_of_flushed l : Forall flushed l -> Forall sfl (map fst l).
+Proof. induction 1 as [|sg l H _ IH]; [constructor|]. cbn [map]. constructor; [exact H|exact IH]. Qed.
+
+(* with every buffer empty, the streams are those of the settled state *)
+Lemma on_file_settle fm f s : on_file fm f (settle s) = on_file fm f s.
+Proof. reflexivity. Qed.
+Lemma streams_settle fm f st : Forall sfl (all_sinks st) -> streams fm f (wsettle st) = streams fm f st.
+Proof.
+  unfold streams, all_sinks, wsettle. cbn [fst snd]. rewrite sinks_of_tmap, <- map_app.
+  generalize (snd st ++ sinks_of (fst st)). intros l H.
+  induction H as [|s l Hs _ IH]; [reflexivity|]. cbn [map filter]. rewrite on_file_settle.
+  destruct (on_file fm f s) eqn:E; [|exact IH]. cbn [map]. rewrite IH. f_equal.
+  unfold on_file in E. apply andb_true_iff in E. destruct E as [_ E]. apply negb_true_iff in E.
+  cbn [settle disk]. rewrite (Hs E), app_nil_r. reflexivity.
+Qed.
+Lemma live_files_settle fm st : live_files fm (wsettle st) = live_files fm st.
+Proof.
+  unfold live_files, wsettle. cbn [fst]. rewrite sinks_of_tmap.
+  induction (sinks_of (fst st)) as [|s l IH]; [reflexivity|]. cbn [map filter]. cbn [settle broken].
+  destruct (negb (broken s)); cbn [map]; rewrite IH; reflexivity.
+Qed.
+
+(* THE theorem for files shared by several sinks: with a good configuration, for every assignment of files
+   to sinks, every history of messages, flushes, reconfigurations and short-lived second loggers, every
+   buffering policy and fault pattern: at abort every file holds, from every QFile ever opened on it (sinks of
+   the final configuration and destroyed ones alike), exactly the stream the unbuffered logger would have
+   written - and the files that belong to the final configuration are the same *)
+Theorem fatal_reaches_shared_files cfg : cfg_goodb cfg = true ->
+  forall (pol : policy) (rej : reject) (t : tree) (evs : list wevent) (r : rec) (fm : fmap),
+  (forall f, streams fm f (wrun_fatal cfg pol rej t evs r) = streams fm f (expected_w rej t evs r))
+  /\ live_files fm (wrun_fatal cfg pol rej t evs r) = live_files fm (expected_w rej t evs r).
+Proof.
+  intros Hg pol rej t evs r fm.
+  destruct (cfg_good_inv cfg Hg) as (Hp & Hf & Hs & Hd & Hr).
+  unfold expected_w, wrun_fatal. rewrite <- (wsettle_wrun cfg pol).
+  split; [intros f; symmetry; apply streams_settle|symmetry; apply live_files_settle].
+  unfold wrun. rewrite fold_left_app. cbn [fold_left]. set (st := fold_left (wstep cfg pol rej) evs (t, [])).
+  unfold all_sinks. apply Forall_app. split.
+  - apply closed_wstep. unfold st. apply closed_fold. constructor.
+  - cbn [wfatal wstep fst step]. unfold sinks_of. apply sfl_of_flushed.
+    unfold process_message, gsinks. rewrite Hp. cbn [fst]. rewrite Hf. apply gs_root_flush_flushed; assumption.
+Qed.
+(* killed at any other moment (no fatal message): every stream is a part of what was logged - what a destroyed sink
+   wrote is complete, only the buffers of the sinks of the configuration are lost *)
+Theorem destroyed_sinks_lose_nothing cfg pol rej t evs fm f :
+  map disk (filter (on_file fm f) (snd (wrun cfg pol rej t evs)))
+  = map disk (filter (on_file fm f) (snd (wspec rej t evs))).
+Proof.
+  rewrite <- (wsettle_wrun cfg pol). unfold wsettle. cbn [snd].
+  assert (H : Forall sfl (snd (wrun cfg pol rej t evs))) by (unfold wrun; apply closed_fold; constructor).
+  induction H as [|s l Hs _ IH]; [reflexivity|]. cbn [map filter]. rewrite on_file_settle.
+  destruct (on_file fm f s) eqn:E; [|exact IH]. cbn [map]. rewrite IH. f_equal.
+  unfold on_file in E. apply andb_true_iff in E. destruct E as [_ E]. apply negb_true_iff in E.
+  cbn [settle disk]. rewrite (Hs E), app_nil_r. reflexivity.
+Qed.
+
+(* ---- the oracle for shared files ---- *)
+Lemma ms_eqb_refl a : ms_eqb a a = true.
+Proof.
+  unfold ms_eqb. rewrite Nat.eqb_refl. cbn [andb]. apply forallb_forall. intros x _. apply N.eqb_refl.
+Qed.
+Lemma subseq_b_tail : forall l x p, subseq_b l (x :: p) = true -> subseq_b l p = true.
+Proof.
+  induction l as [|y l IH]; intros x p H; [discriminate|].
+  cbn [subseq_b] in H. destruct p as [|z p']; [reflexivity|]. cbn [subseq_b].
+  destruct (x =? y).
+  - destruct (z =? y); [apply (IH z), H|exact H].
+  - destruct (z =? y); [apply (IH z), (IH x), H|apply (IH x), H].
+Qed.
+Lemma subseq_b_refl_app : forall p b, subseq_b (p ++ b) p = true.
+Proof.
+  induction p as [|x p IH]; intros b; [destruct b; reflexivity|]. cbn [app subseq_b]. rewrite N.eqb_refl. apply IH.
+Qed.
+Lemma subseq_b_app_l : forall a l p, subseq_b l p = true -> subseq_b (a ++ l) p = true.
+Proof.
+  induction a as [|y a IH]; intros l p H; [exact H|]. cbn [app subseq_b].
+  destruct p as [|x p']; [reflexivity|]. destruct (x =? y); [apply IH, (subseq_b_tail l x), H|apply IH, H].
+Qed.
+Lemma subseq_b_concat : forall parts : list (list N), forallb (subseq_b (concat parts)) parts = true.
+Proof.
+  intros parts. apply forallb_forall. intros p Hp. apply in_split in Hp. destruct Hp as (l1 & l2 & ->).
+  rewrite concat_app. cbn [concat]. apply subseq_b_app_l, subseq_b_refl_app.
+Qed.
+Lemma stream_okb_concat parts : stream_okb parts (concat parts) = true.
+Proof.
+  unfold stream_okb. destruct parts as [|p [|q rest]].
+  - reflexivity.
+  - cbn [concat]. rewrite app_nil_r. apply ids_eqb_refl.
+  - rewrite ms_eqb_refl. apply subseq_b_concat.
+Qed.
+(* the files of the model (its streams one after the other) satisfy the oracle *)
+Theorem oracle_w_holds cfg : cfg_goodb cfg = true ->
+  forall pol rej t evs r fm,
+  prop_c11_w_b fm rej t evs r (fun f => Some (concat (stream_ids fm f (wrun_fatal cfg pol rej t evs r)))) = true.
+Proof.
+  intros Hg pol rej t evs r fm. unfold prop_c11_w_b. apply forallb_forall. intros f _.
+  unfold stream_ids. rewrite (proj1 (fatal_reaches_shared_files cfg Hg pol rej t evs r fm) f). apply stream_okb_concat.
+Qed.
+(* what the oracle accepts of a file several sinks wrote: the same ids the same number of times *)
+Lemma ms_eqb_count a b : ms_eqb a b = true -> forall x, In x a -> count_id x a = count_id x b.
+Proof.
+  unfold ms_eqb. intros H x Hx. apply andb_true_iff in H. destruct H as [_ H].
+  rewrite forallb_forall in H. apply N.eqb_eq, H, Hx.
+Qed.
+(* on histories without a second logger the tree of the shared-file specification is the tree of [spec_run] *)
+Lemma fst_swstep_fold rej evs : forall st,
+  fst (fold_left (swstep rej) (map WEv evs) st) = fold_left (sstep rej) evs (fst st).
+Proof. induction evs as [|e evs IH]; intros st; [reflexivity|]. cbn [map fold_left]. rewrite IH. reflexivity. Qed.
+Theorem wspec_tree rej t evs : fst (wspec rej t (map WEv evs)) = spec_run rej t evs.
+Proof. unfold wspec, spec_run. rewrite fst_swstep_fold. reflexivity. Qed.
